@@ -247,3 +247,51 @@ def run_harnesses(hs, tier):
         results += list(ex.map(lambda h: run_one(h, keys), par))
         results += fut.result()
     return results
+
+
+def build_replay():
+    """(exe path or None, build log tail)"""
+    base = workbase()
+    d = os.path.join(base, 'replay')
+    tmpl = open(os.path.join(d, 'Cargo.toml.tmpl')).read().replace('@REPO@', REPO)
+    if not os.path.exists(os.path.join(d, 'Cargo.toml')) or open(os.path.join(d, 'Cargo.toml')).read() != tmpl:
+        open(os.path.join(d, 'Cargo.toml'), 'w').write(tmpl)
+    lock = os.path.join(REPO, 'Cargo.lock')
+    if os.path.exists(lock) and not os.path.exists(os.path.join(d, 'Cargo.lock')):
+        open(os.path.join(d, 'Cargo.lock'), 'wb').write(open(lock, 'rb').read())
+    tgt = os.path.join(CACHE, 'replay-target-%s' % hashlib.sha256(REPO.encode()).hexdigest()[:8])
+    b = subprocess.run('cd %s && CARGO_NET_OFFLINE=true CARGO_TARGET_DIR=%s timeout 1200 cargo build --offline 2>&1 | tail -8' % (d, tgt), shell=True,
+                       stdout=subprocess.PIPE, stderr=subprocess.STDOUT)
+    exe = os.path.join(tgt, 'debug', 'verif-replay')
+    return (exe if os.path.exists(exe) else None), b.stdout.decode('utf-8', 'replace')[-600:]
+
+
+def probe(p):
+    """bounded dynamic probe of the real crate (a stated-bound stand-in, never counted as proved): runs `verif-replay probe <args>`
+    in a child process with an 8 MiB stack; a crash (signal) or exit status 1 is a failure WITH a concrete input."""
+    t0 = time.time()
+    exe, log = build_replay()
+    rec = dict(harness=p['name'], target=p['target'], claim=p['claim'], bound=p['bound'], complete=False, trusted=[], solver_s=0.0,
+               cmd='(ulimit -s 8192; verif-replay probe %s)' % ' '.join(p['args']))
+    if exe is None:
+        rec.update(status='undecided', message='replay/probe build failed: ' + log)
+        return rec
+    try:
+        r = subprocess.run('ulimit -s 8192; exec %s probe %s' % (exe, ' '.join(p['args'])), shell=True, stdout=subprocess.PIPE, stderr=subprocess.STDOUT,
+                           timeout=p.get('timeout', 600))
+    except subprocess.TimeoutExpired:
+        rec.update(status='undecided', message='probe timed out')
+        return rec
+    out = r.stdout.decode('utf-8', 'replace')[-1500:]
+    rec['output'] = out
+    rec['wall_s'] = time.time() - t0
+    if r.returncode == 0:
+        rec.update(status='discharged', message='')
+    elif r.returncode == 1 or r.returncode < 0 or r.returncode >= 128:
+        why = 'process killed by signal %d' % (-r.returncode if r.returncode < 0 else r.returncode - 128) if r.returncode != 1 else 'probe reported failure'
+        rec.update(status='failed', message='%s: %s' % (why, out.strip().split('\n')[-1][:300]),
+                   counterexample='probe %s' % ' '.join(p['args']),
+                   replay=dict(fails_on_real_code=True, input_hex='(generated by the probe: %s)' % ' '.join(p['args']), cmd=rec['cmd'], outcome=out.strip()[-400:]))
+    else:
+        rec.update(status='undecided', message='probe exit status %d: %s' % (r.returncode, out[-300:]))
+    return rec
